@@ -68,7 +68,7 @@ func (m *mapV) insert(fr *frame, k, v value) {
 	mach := fr.i
 	if e := m.find(fr, k); e != nil {
 		old := e.val
-		mach.journal = append(mach.journal, undoRec{fn: func() { e.val = old }})
+		mach.jlog(undoRec{fn: func() { e.val = old }})
 		e.val = v
 		return
 	}
@@ -80,7 +80,7 @@ func (m *mapV) insert(fr *frame, k, v value) {
 	} else {
 		m.nsym++
 	}
-	mach.journal = append(mach.journal, undoRec{fn: func() {
+	mach.jlog(undoRec{fn: func() {
 		// remove e (it is the last live entry appended at this point in reverse replay)
 		for i := len(m.entries) - 1; i >= 0; i-- {
 			if m.entries[i] == e {
@@ -121,7 +121,7 @@ func (m *mapV) remove(fr *frame, k value) {
 	} else {
 		m.nsym--
 	}
-	mach.journal = append(mach.journal, undoRec{fn: func() {
+	mach.jlog(undoRec{fn: func() {
 		m.entries = old
 		e.deleted = false
 		if concrete {
@@ -142,7 +142,7 @@ func (m *mapV) clear(fr *frame) {
 		e.deleted = true
 	}
 	m.entries, m.index, m.nsym = nil, map[string]*mapEntry{}, 0
-	mach.journal = append(mach.journal, undoRec{fn: func() {
+	mach.jlog(undoRec{fn: func() {
 		m.entries, m.index, m.nsym = old, oldIdx, oldN
 		for _, e := range old {
 			e.deleted = false
